@@ -35,6 +35,8 @@ def main():
         rep.extra["anchored_sources_changed"] = stale
         rep.notes.append(f"NOTE property={prop}: source changed since the model was written ({', '.join(stale)}); "
                          f"case generation escalated to the thorough tier for this run")
+    if gen_tier == "quick" and "VERIF_RUN_TIMEOUT" not in os.environ:
+        F.DEFAULT_RUN_TIMEOUT = 300
     try:
         return mod.main(rep, gen_tier, seed)
     except Exception:
